@@ -102,7 +102,7 @@ def sources(ctx):
         pass
     for k, site in sorted(rand_callers.items()):
         inst = "rand caller=%s" % (facts.bodies[owner(k)]["name"] + ("{closure}" if k != owner(k) else ""))
-        if k in allowed or owner(k) in allowed or k in pipe_closures:
+        if k in allowed or owner(k) in allowed or k in pipe_closures or any(k.startswith(pc_ + "::{closure") for pc_ in pipe_closures):
             ck.ok("C20.sources", inst)
         else:
             ck.violation("C20.sources", inst, "calls into rand", where=site,
